@@ -1473,6 +1473,23 @@ def format_printf(fmt, args):
 # --------------------------------------------------------------------------------------
 # evaluation / inspection of symbolic expressions
 
+def _c_char_fn(pred):
+    return lambda c: int(bool(pred(c))) if 0 <= c <= 255 else 0
+
+
+_C_LOCALE_FUNCS = {
+    'tolower': lambda c: c + 32 if 65 <= c <= 90 else c,
+    'toupper': lambda c: c - 32 if 97 <= c <= 122 else c,
+    'isdigit': _c_char_fn(lambda c: 48 <= c <= 57),
+    'isupper': _c_char_fn(lambda c: 65 <= c <= 90),
+    'islower': _c_char_fn(lambda c: 97 <= c <= 122),
+    'isalpha': _c_char_fn(lambda c: 65 <= c <= 90 or 97 <= c <= 122),
+    'isalnum': _c_char_fn(lambda c: 48 <= c <= 57 or 65 <= c <= 90 or 97 <= c <= 122),
+    'isxdigit': _c_char_fn(lambda c: 48 <= c <= 57 or 65 <= c <= 70 or 97 <= c <= 102),
+    'isspace': _c_char_fn(lambda c: c in (9, 10, 11, 12, 13, 32)),
+}
+
+
 def sym_eval(v, env):
     """evaluate a Sym tree under env: dict mapping Sym (sub-expression) -> python int.
     Returns int or raises KeyError for an unbound unknown."""
@@ -1486,6 +1503,9 @@ def sym_eval(v, env):
         if isinstance(x, float):
             x = int(x)
         return astdb.wrap_int(x, v.ctype)
+    if op == 'call' and v.args and v.args[0] in _C_LOCALE_FUNCS and len(v.args) >= 2:
+        # a pure <ctype.h> function of the C locale applied to an otherwise evaluable argument
+        return _C_LOCALE_FUNCS[v.args[0]](sym_eval(v.args[-1], env))
     if op in ('unk', 'member', 'index', 'call', 'deref', 'addr'):
         raise KeyError(v)
     a = [sym_eval(x, env) for x in v.args]
